@@ -176,7 +176,16 @@ func postOps(in []byte, m *dns.Msg) {
 
 var accepted, rejected int
 
+// exact returns a copy of in whose capacity equals its length, so that any read past the
+// end of the input is an out-of-range panic instead of a silent read of spare capacity.
+func exact(in []byte) []byte {
+	o := make([]byte, len(in))
+	copy(o, in)
+	return o[:len(in):len(in)]
+}
+
 func tryMsg(in []byte, w *hx.Writer, logMax int) (*dns.Msg, error) {
+	in = exact(in)
 	var m dns.Msg
 	var err error
 	if !guarded("Msg.Unpack", in, func() { err = m.Unpack(in) }) {
